@@ -25,6 +25,7 @@ def run(ctx):
     from . import c02, c05
     from .common import MultiAlias
     c02.write_table(ctx, "C19.R2")
+    c02.late_error(ctx, "C19.R1")        # a late failure does not reach handle_error (which would log the request a second time)
     c05.stale_request(MultiAlias(ctx, {"C05.R2": "C19.R1"}))
     c05.stale_to_handle_error(MultiAlias(ctx, {"C05.R2": "C19.R1"}))
 
